@@ -23,11 +23,13 @@ import (
 // established from the registrars' SSA form by keyRegistrars().
 
 type kval struct {
-	kind byte // 's' string, 'i' int, 'b' bool, 'T' the Terminfo, 'S' the screen, 0 unknown
+	kind byte // 's' string, 'i' int, 'b' bool, 'T' the Terminfo, 'S' the screen, 'L' list (a constant table), 'R' record (a row of one), 0 unknown
 	s    string
 	i    int64
 	b    bool
 	src  string // Terminfo field the value was read from (unmodified), if any
+	list []kval
+	rec  map[string]kval
 }
 
 type keyBinding struct {
@@ -286,6 +288,8 @@ type ctrlFlow int
 const (
 	flowNext ctrlFlow = iota
 	flowReturn
+	flowContinue
+	flowBreak
 )
 
 func (ev *keyEval) block(b *ast.BlockStmt, env map[types.Object]kval, fd *ast.FuncDecl) ctrlFlow {
@@ -293,11 +297,100 @@ func (ev *keyEval) block(b *ast.BlockStmt, env map[types.Object]kval, fd *ast.Fu
 		if ev.err != "" {
 			return flowReturn
 		}
-		if ev.stmt(st, env, fd) == flowReturn {
-			return flowReturn
+		if f := ev.stmt(st, env, fd); f != flowNext {
+			return f
 		}
 	}
 	return flowNext
+}
+
+// zeroOf: the zero value of a foldable type.
+func zeroOf(t types.Type) kval {
+	if b, ok := t.Underlying().(*types.Basic); ok {
+		switch {
+		case b.Info()&types.IsString != 0:
+			return kval{kind: 's'}
+		case b.Info()&types.IsInteger != 0:
+			return kval{kind: 'i'}
+		case b.Kind() == types.Bool:
+			return kval{kind: 'b'}
+		}
+	}
+	return kval{}
+}
+
+// tableValue: a package-level variable initialised with a composite literal of constants (an array or
+// slice of rows) that nothing in the module assigns to: the rows as records.
+func (ev *keyEval) tableValue(obj types.Object) kval {
+	v, ok := obj.(*types.Var)
+	if !ok || v.Parent() != ev.pk.Types.Scope() {
+		return kval{}
+	}
+	if ev.p.Tcell != nil {
+		if g, isG := ev.p.Tcell.Members[v.Name()].(*ssa.Global); isG && globalIsStored(ev.p, g) {
+			return kval{}
+		}
+	}
+	e := findVarDecl(ev.pk, v)
+	cl, ok := e.(*ast.CompositeLit)
+	if !ok {
+		return kval{}
+	}
+	return ev.literal(cl, v.Type())
+}
+
+func (ev *keyEval) literal(cl *ast.CompositeLit, t types.Type) kval {
+	switch u := t.Underlying().(type) {
+	case *types.Array, *types.Slice:
+		var elemT types.Type
+		if a, isA := u.(*types.Array); isA {
+			elemT = a.Elem()
+		} else {
+			elemT = u.(*types.Slice).Elem()
+		}
+		out := kval{kind: 'L'}
+		for _, el := range cl.Elts {
+			if _, isKV := el.(*ast.KeyValueExpr); isKV {
+				return kval{} // indexed rows: not needed so far
+			}
+			var row kval
+			if inner, isCL := el.(*ast.CompositeLit); isCL {
+				row = ev.literal(inner, elemT)
+			} else {
+				row = ev.expr(el, nil)
+			}
+			if row.kind == 0 {
+				return kval{}
+			}
+			out.list = append(out.list, row)
+		}
+		return out
+	case *types.Struct:
+		out := kval{kind: 'R', rec: map[string]kval{}}
+		for i := 0; i < u.NumFields(); i++ {
+			out.rec[u.Field(i).Name()] = zeroOf(u.Field(i).Type())
+		}
+		for i, el := range cl.Elts {
+			name, ve := "", el
+			if kv, isKV := el.(*ast.KeyValueExpr); isKV {
+				if id, isID := kv.Key.(*ast.Ident); isID {
+					name, ve = id.Name, kv.Value
+				}
+			} else if i < u.NumFields() {
+				name = u.Field(i).Name()
+			}
+			if name == "" {
+				return kval{}
+			}
+			v := ev.expr(ve, nil)
+			if v.kind == 0 {
+				return kval{}
+			}
+			out.rec[name] = v
+		}
+		return out
+	}
+	return kval{}
 }
 
 func (ev *keyEval) stmt(st ast.Stmt, env map[types.Object]kval, fd *ast.FuncDecl) ctrlFlow {
@@ -329,7 +422,155 @@ func (ev *keyEval) stmt(st ast.Stmt, env map[types.Object]kval, fd *ast.FuncDecl
 		case *ast.IfStmt:
 			return ev.stmt(el, env, fd)
 		}
+	case *ast.SwitchStmt:
+		if s.Init != nil {
+			ev.fail(s.Pos(), "switch with init statement")
+			return flowReturn
+		}
+		var tag kval
+		if s.Tag != nil {
+			tag = ev.expr(s.Tag, env)
+			if tag.kind == 0 {
+				ev.fail(s.Pos(), "switch tag does not fold for entry "+ev.entry.Name)
+				return flowReturn
+			}
+		}
+		var chosen, def *ast.CaseClause
+		for _, cc := range s.Body.List {
+			cl := cc.(*ast.CaseClause)
+			if cl.List == nil {
+				def = cl
+				continue
+			}
+			for _, e := range cl.List {
+				v := ev.expr(e, env)
+				if v.kind == 0 {
+					ev.fail(e.Pos(), "case expression does not fold for entry "+ev.entry.Name)
+					return flowReturn
+				}
+				hit := false
+				if s.Tag == nil {
+					hit = v.kind == 'b' && v.b
+				} else {
+					hit = v.kind == tag.kind && v.s == tag.s && v.i == tag.i && v.b == tag.b
+				}
+				if hit && chosen == nil {
+					chosen = cl
+				}
+			}
+		}
+		if chosen == nil {
+			chosen = def
+		}
+		if chosen != nil {
+			for _, st2 := range chosen.Body {
+				if _, isFT := st2.(*ast.BranchStmt); isFT && st2.(*ast.BranchStmt).Tok == token.FALLTHROUGH {
+					ev.fail(st2.Pos(), "fallthrough")
+					return flowReturn
+				}
+				f := ev.stmt(st2, env, fd)
+				if f == flowBreak {
+					break
+				}
+				if f != flowNext {
+					return f
+				}
+			}
+		}
+	case *ast.DeclStmt:
+		gd, ok := s.Decl.(*ast.GenDecl)
+		if !ok || (gd.Tok != token.VAR && gd.Tok != token.CONST) {
+			ev.fail(s.Pos(), "declaration that is not var/const")
+			return flowReturn
+		}
+		for _, sp := range gd.Specs {
+			vs, isVS := sp.(*ast.ValueSpec)
+			if !isVS {
+				continue
+			}
+			for i, n := range vs.Names {
+				obj := ev.pk.TypesInfo.Defs[n]
+				if obj == nil {
+					continue
+				}
+				if i < len(vs.Values) {
+					env[obj] = ev.expr(vs.Values[i], env)
+				} else {
+					env[obj] = zeroOf(obj.Type())
+				}
+			}
+		}
+	case *ast.BranchStmt:
+		switch s.Tok {
+		case token.CONTINUE:
+			if s.Label == nil {
+				return flowContinue
+			}
+		case token.BREAK:
+			if s.Label == nil {
+				return flowBreak
+			}
+		}
+		ev.fail(s.Pos(), "branch statement "+s.Tok.String())
+		return flowReturn
+	case *ast.RangeStmt:
+		// a loop over a constant table of the package (rows of parameters for the registrars)
+		tab := ev.expr(s.X, env)
+		if tab.kind != 'L' {
+			ev.fail(s.Pos(), "range over something that is not a constant table")
+			return flowReturn
+		}
+		bind := func(e ast.Expr, v kval) {
+			if id, ok := e.(*ast.Ident); ok && id.Name != "_" {
+				obj := ev.pk.TypesInfo.Defs[id]
+				if obj == nil {
+					obj = ev.pk.TypesInfo.Uses[id]
+				}
+				if obj != nil {
+					env[obj] = v
+				}
+			}
+		}
+		for i, row := range tab.list {
+			if s.Key != nil {
+				bind(s.Key, kval{kind: 'i', i: int64(i)})
+			}
+			if s.Value != nil {
+				bind(s.Value, row)
+			}
+			f := ev.block(s.Body, env, fd)
+			if f == flowReturn {
+				return flowReturn
+			}
+			if f == flowBreak {
+				break
+			}
+		}
 	case *ast.AssignStmt:
+		if len(s.Lhs) == len(s.Rhs) && len(s.Lhs) > 1 {
+			// a, b = x, y: all right-hand sides first
+			vals := make([]kval, len(s.Rhs))
+			for i, r := range s.Rhs {
+				vals[i] = ev.expr(r, env)
+				if vals[i].kind == 0 {
+					ev.fail(s.Pos(), "assignment of a value that does not fold")
+					return flowReturn
+				}
+			}
+			for i, l := range s.Lhs {
+				id, ok := l.(*ast.Ident)
+				if !ok {
+					ev.fail(s.Pos(), "multi-assignment to something that is not a variable")
+					return flowReturn
+				}
+				obj := ev.pk.TypesInfo.Defs[id]
+				if obj == nil {
+					obj = ev.pk.TypesInfo.Uses[id]
+				}
+				env[obj] = vals[i]
+			}
+			return flowNext
+		}
 		if len(s.Lhs) != 1 || len(s.Rhs) != 1 {
 			ev.fail(s.Pos(), "multi-assignment")
 			return flowReturn
@@ -533,9 +774,18 @@ func (ev *keyEval) expr(e ast.Expr, env map[types.Object]kval) kval {
 		if v, ok := env[obj]; ok {
 			return v
 		}
+		if obj != nil {
+			if t := ev.tableValue(obj); t.kind != 0 {
+				return t
+			}
+		}
 	case *ast.SelectorExpr:
 		base := ev.expr(x.X, env)
 		switch base.kind {
+		case 'R':
+			if v, ok := base.rec[x.Sel.Name]; ok {
+				return v
+			}
 		case 'S':
 			if x.Sel.Name == "ti" {
 				return kval{kind: 'T'}
@@ -620,12 +870,27 @@ func (ev *keyEval) expr(e ast.Expr, env map[types.Object]kval) kval {
 		if x.Op == token.NOT && v.kind == 'b' {
 			return kval{kind: 'b', b: !v.b}
 		}
+		if x.Op == token.AND && v.kind == 'R' {
+			return v // the address of a row of a constant table: read only
+		}
+	case *ast.StarExpr:
+		if v := ev.expr(x.X, env); v.kind == 'R' {
+			return v
+		}
+	case *ast.IndexExpr:
+		tab, idx := ev.expr(x.X, env), ev.expr(x.Index, env)
+		if tab.kind == 'L' && idx.kind == 'i' && idx.i >= 0 && idx.i < int64(len(tab.list)) {
+			return tab.list[idx.i]
+		}
 	case *ast.CallExpr:
 		if id, ok := x.Fun.(*ast.Ident); ok && id.Name == "len" && len(x.Args) == 1 {
 			if _, isBuiltin := ev.pk.TypesInfo.Uses[id].(*types.Builtin); isBuiltin {
 				v := ev.expr(x.Args[0], env)
 				if v.kind == 's' {
 					return kval{kind: 'i', i: int64(len(v.s))}
+				}
+				if v.kind == 'L' {
+					return kval{kind: 'i', i: int64(len(v.list))}
 				}
 			}
 		}
